@@ -105,21 +105,37 @@ func runOrd2(m *Model, r *RuleResult) {
 		r.undecided("anchor:Layout", "-", "autog.Layout", "not found")
 		return
 	}
+	// the pipeline function: Layout itself, or the helper of its package that contains the Process invoke
+	pf := layout
+	var procs []ssa.CallInstruction
+	for _, f := range m.Src {
+		if pkgPathOf(f) != pkgPathOf(layout) || m.FuncIsPosctl(f) {
+			continue
+		}
+		eachInstr(f, func(in ssa.Instruction) {
+			if ci, ok := in.(ssa.CallInstruction); ok && ci.Common().IsInvoke() && ci.Common().Method.Name() == "Process" {
+				procs = append(procs, ci)
+				pf = f
+			}
+		})
+	}
 	var isl, unrev, comps []ssa.CallInstruction
 	preF, unF := m.anchorSelfLoopPre(), m.anchorUnreverse()
-	isl = staticCalls(layout, func(c *ssa.Function) bool { return c == preF })
-	unrev = staticCalls(layout, func(c *ssa.Function) bool { return c == unF })
+	isl = staticCalls(pf, func(c *ssa.Function) bool { return c == preF })
+	unrev = staticCalls(pf, func(c *ssa.Function) bool { return c == unF })
 	comps = staticCalls(layout, func(c *ssa.Function) bool {
 		return c.Name() == "Components" && shortPkg(pkgPathOf(c)) == "internal/graph/connected"
 	})
-	var procs []ssa.CallInstruction
-	eachInstr(layout, func(in ssa.Instruction) {
-		if ci, ok := in.(ssa.CallInstruction); ok && ci.Common().IsInvoke() && ci.Common().Method.Name() == "Process" {
-			procs = append(procs, ci)
+	// when the pipeline lives in a helper: its single call site in Layout
+	var pfSite ssa.CallInstruction
+	if pf != layout {
+		sites := staticCalls(layout, func(c *ssa.Function) bool { return c == pf })
+		if len(sites) == 1 {
+			pfSite = sites[0]
 		}
-	})
-	if len(isl) != 1 || len(unrev) != 1 || len(comps) != 1 || len(procs) != 1 {
-		r.undecided("anchors", m.Pos(layout.Pos()), "Layout must contain exactly one call each of the self-loop pre-processor (returns a func(*DGraph)), the un-reverser (modifies Edge.IsReversed), connected.Components and one Process invoke",
+	}
+	if len(isl) != 1 || len(unrev) != 1 || len(comps) != 1 || len(procs) != 1 || (pf != layout && pfSite == nil) {
+		r.undecided("anchors", m.Pos(layout.Pos()), "Layout (or one helper of its package, called once from Layout) must contain exactly one call each of the self-loop pre-processor (returns a func(*DGraph)), the un-reverser (modifies Edge.IsReversed) and one Process invoke; Layout calls connected.Components once",
 			fmt.Sprintf("found %d/%d/%d/%d", len(isl), len(unrev), len(comps), len(procs)))
 		return
 	}
@@ -133,9 +149,21 @@ func runOrd2(m *Model, r *RuleResult) {
 			r.violation(key, pos, desc, detail)
 		}
 	}
+	// actual: the value that Layout passes for a parameter of the pipeline helper (identity when the pipeline is in Layout)
+	actual := func(v ssa.Value) ssa.Value {
+		if pfSite == nil {
+			return v
+		}
+		for i, p := range pf.Params {
+			if ssa.Value(p) == v && i < len(pfSite.Common().Args) {
+				return pfSite.Common().Args[i]
+			}
+		}
+		return v
+	}
 	// restore call: dynamic call whose callee value is the result of IgnoreSelfLoops
 	var restore ssa.CallInstruction
-	eachInstr(layout, func(in ssa.Instruction) {
+	eachInstr(pf, func(in ssa.Instruction) {
 		if ci, ok := in.(ssa.CallInstruction); ok && !ci.Common().IsInvoke() && ci.Common().Value == islC.Value() {
 			restore = ci
 		}
@@ -145,14 +173,14 @@ func runOrd2(m *Model, r *RuleResult) {
 		"the pipeline and its pre/post-processing do not receive the same graph value")
 	// g is an element of Components' result
 	gOK := false
-	if u, ok := g.(*ssa.UnOp); ok && u.Op == token.MUL {
+	if u, ok := actual(g).(*ssa.UnOp); ok && u.Op == token.MUL {
 		if ia, ok := u.X.(*ssa.IndexAddr); ok && ia.X == compC.Value() {
 			gOK = true
 		}
 	}
-	chk("graph-is-component", "the graph handed to the pipeline is an element of connected.Components(G)", gOK, "phases assume a connected graph; the processed graph is "+g.String())
+	chk("graph-is-component", "the graph handed to the pipeline is an element of connected.Components(G)", gOK, "phases assume a connected graph; the processed graph is "+actual(g).String())
 	chk("selfloops-before-pipeline", "IgnoreSelfLoops(g) dominates the Process invoke", instrDominates(islC, procC), "self-loops would be visible to the phases (cycle breaking and layering assume none)")
-	loops := naturalLoops(layout)
+	loops := naturalLoops(pf)
 	pl := loopsContaining(loops, procC.Block())
 	if len(pl) == 0 {
 		r.violation("pipeline-loop", pos, "Process is invoked in a loop over the pipeline", "no loop found around the Process invoke")
@@ -215,9 +243,28 @@ func runOrd2(m *Model, r *RuleResult) {
 		}
 	})
 	okDom := (len(outStores) >= 3 || nHelper >= 1) && restore != nil
-	for _, s := range outStores {
-		if restore == nil || !instrDominates(restore, s) || !instrDominates(unrevC, s) {
-			okDom = false
+	if pfSite == nil {
+		for _, s := range outStores {
+			if restore == nil || !instrDominates(restore, s) || !instrDominates(unrevC, s) {
+				okDom = false
+			}
+		}
+	} else {
+		// the helper runs restore and un-reverse on every path to its return, and its call dominates the collection
+		for _, b := range pf.Blocks {
+			if _, isRet := b.Instrs[len(b.Instrs)-1].(*ssa.Return); isRet {
+				if restore == nil || !restore.Block().Dominates(b) || !unrevC.Block().Dominates(b) {
+					okDom = false
+				}
+			}
+		}
+		for _, s := range outStores {
+			if s == ssa.Instruction(pfSite) {
+				continue
+			}
+			if !instrDominates(pfSite, s) {
+				okDom = false
+			}
 		}
 	}
 	chk("postprocessing-before-collection", "restore and UnreverseEdges dominate the construction of every output node and edge", okDom,
@@ -226,7 +273,7 @@ func runOrd2(m *Model, r *RuleResult) {
 	var arr *ssa.Alloc
 	if u, ok := procC.Common().Value.(*ssa.UnOp); ok {
 		if ia, ok := u.X.(*ssa.IndexAddr); ok {
-			if sl, ok := ia.X.(*ssa.Slice); ok {
+			if sl, ok := actual(ia.X).(*ssa.Slice); ok {
 				arr, _ = sl.X.(*ssa.Alloc)
 			}
 		}
